@@ -36,21 +36,22 @@ _compress_cache = {}
 
 
 def _patch_compress():
-    """Memoise compress_code (O(n*3120), seconds for 16 KB) - same results, computed once."""
+    """Pass-through spy on compress_code: records the stream length per text (compression is O(n*3120), seconds
+    for 16 KB, and the oracle needs the size too).  The object picotool's function returns is handed on untouched,
+    so nothing the code under test does with it - caching, mutating - is masked."""
     from pico8.game import compress
-    if getattr(compress.compress_code, '_verif_memo', False):
+    if getattr(compress.compress_code, '_verif_spy', False):
         return
     orig = compress.compress_code
 
-    def memo(code):
-        key = bytes(code)
-        if key not in _compress_cache:
-            if len(_compress_cache) > 8:
-                _compress_cache.clear()
-            _compress_cache[key] = bytes(orig(key))
-        return bytearray(_compress_cache[key])
-    memo._verif_memo = True
-    compress.compress_code = memo
+    def spy(code):
+        out = orig(code)
+        if len(_compress_cache) > 16:
+            _compress_cache.clear()
+        _compress_cache[bytes(code)] = len(out)
+        return out
+    spy._verif_spy = True
+    compress.compress_code = spy
 
 
 def fits(code, version, case=None):
@@ -62,7 +63,9 @@ def fits(code, version, case=None):
     if version == 0:
         return False
     try:
-        n = len(compress.compress_code(bytes(code)))
+        n = _compress_cache.get(bytes(code))
+        if n is None:
+            n = len(compress.compress_code(bytes(code)))
     except Exception as e:
         raise Violation('compress_code raised %r on %d bytes of valid code (cannot even decide whether the cart fits)'
                         % (e, len(code)), case or {}, 'compress-raises')
@@ -114,12 +117,12 @@ def check_write(mem, version, code, dest_seed, case):
             rows0 = empty_label_rows()
             before = None
             labs.append('dest_absent')
-        should_fit = fits(code0, version, case)
         try:
             pfile.to_file(g, path)
             err = None
         except Exception as e:
             err = e
+        should_fit = fits(code0, version, case)     # (uses the stream size the spy recorded during the write)
         if err is not None:
             if should_fit:
                 raise Violation('writing a cart whose %d-byte code fits raised %r' % (len(code0), err), case, 'refused-fitting')
@@ -173,6 +176,21 @@ def check_write(mem, version, code, dest_seed, case):
         if not norm_ok(code1, code0):
             raise Violation('code changed in the .p8.png round trip: wrote %s, read %s'
                             % (show(code0, 100), show(code1, 100)), case, 'code')
+        if case.get('twice'):
+            # the same cart written again in the same process, now over its own output
+            try:
+                pfile.to_file(g, path)
+            except Exception as e:
+                raise Violation('writing the same fitting cart a second time raised %r' % e, case, 'second-write')
+            data2 = open(path, 'rb').read()
+            try:
+                r2 = reffmt.read_p8png(data2)
+            except (refpng.PNGError, reffmt.FormatError) as e:
+                raise Violation('second write: not a valid .p8.png: %s' % e, case, 'second-write')
+            if r2['mem'] != bytes(mem) or r2['version'] != version or r2['code'] != r['code']:
+                raise Violation('second write of the same cart stores different contents than the first '
+                                '(code kind %s -> %s)' % (r['code_kind'], r2['code_kind']), case, 'second-write')
+            labs.append('written_twice')
     return labs
 
 
@@ -223,7 +241,7 @@ def gen_small(seed):
 def part_small(ctx):
     def body(seed):
         mem, modes, version, code, ck, dest = gen_small(seed)
-        labs = check_write(mem, version, code, dest, {'seed': bytes(seed), 'kind': 'small'})
+        labs = check_write(mem, version, code, dest, {'seed': bytes(seed), 'kind': 'small', 'twice': seed[0] % 3 == 0})
         rich = sum(1 for (_n, lo, hi) in cartgen.REGIONS if cartgen.distinct_values(mem[lo:hi]) >= 16)
         if version == 0:
             labs.append('version0')
@@ -339,7 +357,7 @@ def part_boundary(ctx):
         mem, modes = cartgen.memory_from_seed(b'\x01' + salt)
         for label, code in boundary_cases(salt, which):
             labs = check_write(mem, ver, code, dest, {'kind': 'boundary', 'which': which, 'salt': salt,
-                                                       'label': label, 'dest': dest, 'version': ver})
+                                                       'label': label, 'dest': dest, 'version': ver, 'twice': True})
             ctx.stats.case(salt + label.encode(), True,
                            {'boundary': label, 'code_len': len(code), 'version': ver, 'labels': labs},
                            labs + ['boundary', 'boundary_' + which, 'boundary_' + label])
@@ -422,7 +440,7 @@ def replay(case):
 def vacuity(total, tier):
     msgs = []
     for lab in ('stored_raw', 'stored_compressed', 'refused', 'boundary_raw', 'boundary_compressed', 'boundary_header_edge',
-                'dest_exists', 'dest_absent', 'convert', 'code_update60', 'code_table_rows'):
+                'dest_exists', 'dest_absent', 'convert', 'code_update60', 'code_table_rows', 'written_twice'):
         if total.classes.get(lab, 0) < 1:
             msgs.append('class %s never seen' % lab)
     return msgs
